@@ -10,7 +10,9 @@ def main():
     names = []
     for m in mods:
         src = open(os.path.join(HERE, "coq/Model", m + ".v")).read()
-        names += re.findall(r"^Definition\s+(ops_[a-z0-9_]+)\s*\(op : string\)", src, flags=re.M)
+        found = re.findall(r"^Definition\s+(ops_[a-z0-9_]+)\s*\(op : string\)", src, flags=re.M)
+        main_name = "ops_" + m[3:].lower()
+        names += [main_name] if main_name in found else found
     p = os.path.join(HERE, "coq/Model/Dispatch.v")
     s = open(p).read()
     s = re.sub(r"From MRS Require Import Model\.Base[^\n]*\n", "From MRS Require Import Model.Base %s.\n" %
